@@ -11,6 +11,16 @@ Theorem C10_admitted : forall md h t, admitted md h t = true ->
 Proof. exact admitted_sound. Qed.
 Print Assumptions C10_admitted.
 
+(* and the converse: admission demands nothing more, so the characterisation above is exact *)
+Theorem C10_admitted_exactly : forall md h t,
+  a_memo_len t = 0 -> a_nsigners t = 1 -> (a_timeout t = 0 \/ h <= a_timeout t) -> a_sig_ok t = true ->
+  (forall m, In m (a_msgs t) ->
+    (is_relayer_module_msg (m_name m) = true /\ m_by_proposer m = true) \/
+    (m_name m = eth_block_msg /\ (md = MProcess \/ md = MFinalize) /\ a_timeout t = h)) ->
+  admitted md h t = true.
+Proof. exact admitted_complete. Qed.
+Print Assumptions C10_admitted_exactly.
+
 (* the execution-block message never enters the mempool (check, recheck, prepare) *)
 Theorem C10_mempool_excludes_block_msg : forall md h t m, (md = MCheck \/ md = MReCheck \/ md = MPrepare) ->
   In m (a_msgs t) -> m_name m = eth_block_msg -> admitted md h t = false.
